@@ -19,7 +19,7 @@ const (
 
 // World describes the consumer's protocol and the valid token the variants are derived from.
 type World struct {
-	KeyRef        string            // "kid" (key resolved by protected kid) | "jwk" (embedded public key mandated) | "kid-xor-jwk"
+	KeyRef        string            // "kid" (key resolved by protected kid) | "jwk" (embedded public key mandated) | "kid-xor-jwk" | "fixed" (named outside the token: always the victim's; headers as for "kid")
 	Allowed       []string          // algorithms the consumer documents as allowed
 	IdentityBound bool              // the token's content names the victim: a token that verifies under another party's key must be rejected
 	Kids          map[string]string // role -> kid value for victim, attacker and "unknown" (well-formed, resolvable by nobody)
@@ -28,6 +28,11 @@ type World struct {
 	JWKKid        bool   // embedded JWKs carry a "kid" member
 	JWKAlg        bool   // embedded JWKs carry an "alg" member
 	RSAAlg        string // algorithm the valid token uses with an RSA key (default PS256)
+	// Detached: the token is a compact JWS with unencoded detached payload ("<header>..<signature>", RFC 7797), as in the
+	// `jws` member of JsonWebSignature2020 proofs; Payload is the raw signing payload.
+	Detached bool
+	// AlgFromKey: the consumer derives the algorithm from the designated key and never reads the header's alg.
+	AlgFromKey bool
 }
 
 // nat is the algorithm the valid token of this world uses with key k.
@@ -81,16 +86,21 @@ type Variant struct {
 
 // SigFacts is what is true of one signature entry of the built token.
 type SigFacts struct {
-	Alg      string   `json:"alg"`       // protected alg ("" = missing)
-	AlgClass string   `json:"alg_class"` // asym | none | hmac | missing | unknown
-	Kid      string   `json:"kid"`       // role the protected kid names: victim | attacker | unknown | empty | missing | nonstring
-	JWK      string   `json:"jwk"`       // "" | <role>-pub | <role>-priv | oct
-	ValidFor string   `json:"valid_for"` // role whose key validates the signature over the received signing input under (the family of) Alg
-	Fits     bool     `json:"fits"`      // Alg is defined for ValidFor's key type
-	Altered  string   `json:"altered"`   // "" | bytes | reserialised (protected bytes changed after signing)
-	Inject   []string `json:"inject,omitempty"`
-	Unprot   []string `json:"unprot,omitempty"`
-	Prot     string   `json:"prot,omitempty"`
+	Alg      string `json:"alg"`       // protected alg ("" = missing)
+	AlgClass string `json:"alg_class"` // asym | none | hmac | missing | unknown
+	Kid      string `json:"kid"`       // role the protected kid names: victim | attacker | unknown | empty | missing | nonstring
+	JWK      string `json:"jwk"`       // "" | <role>-pub | <role>-priv | oct
+	ValidFor string `json:"valid_for"` // role whose key validates the signature over the received signing input under (the family of) Alg
+	Fits     bool   `json:"fits"`      // Alg is defined for ValidFor's key type
+	Altered  string `json:"altered"`   // "" | bytes | reserialised (protected bytes changed after signing)
+	// what is really in the signature field, whatever the header says:
+	SignedBy   string   `json:"signed_by,omitempty"`   // role whose intact signature over the received signing input it is
+	SignedWith string   `json:"signed_with,omitempty"` // algorithm it was computed with
+	SignedNat  bool     `json:"signed_nat,omitempty"`  // ... which is the one the world derives from that key
+	SignedFits bool     `json:"signed_fits,omitempty"` // ... which is defined for that key type
+	Inject     []string `json:"inject,omitempty"`
+	Unprot     []string `json:"unprot,omitempty"`
+	Prot       string   `json:"prot,omitempty"`
 }
 
 // Facts describe the built token.
@@ -157,6 +167,9 @@ type builtSig struct {
 func Build(w World, v Variant) Built {
 	keys := Keys(v)
 	ref := w.KeyRef
+	if ref == "fixed" {
+		ref = "kid"
+	}
 	if ref == "kid-xor-jwk" {
 		ref = v.Ref
 		if ref != "jwk" {
@@ -165,11 +178,17 @@ func Build(w World, v Variant) Built {
 	}
 	payload := append([]byte(nil), w.Payload...)
 	payB64 := B64(payload)
+	if w.Detached {
+		payB64 = string(payload) // unencoded (b64:false); only ever used as signing input
+	}
 	ser := v.Ser
 	if ser != "flat" && ser != "general" {
 		ser = "compact"
 	}
-	if ser == "compact" && len(v.Sigs) > 1 {
+	if w.Detached {
+		ser = "compact"
+	}
+	if ser == "compact" && len(v.Sigs) > 1 && !w.Detached {
 		ser = "general"
 	}
 	if ser == "flat" && len(v.Sigs) > 1 && v.Shape != "flat+sigs" {
@@ -346,10 +365,16 @@ func Build(w World, v Variant) Built {
 				b.sig = sg
 				b.f.ValidFor = s.Signer
 				b.f.Fits = AlgFits(alg, signerKey.Type)
+				b.f.SignedBy, b.f.SignedWith = s.Signer, alg
 			} else {
 				// the header names an algorithm of another family (or none / a MAC): the key holder's real signature
 				// is there, but no verifier that honours the header can validate it
 				b.sig, _ = SignRaw(signerKey, w.nat(signerKey), input)
+				b.f.SignedBy, b.f.SignedWith = s.Signer, w.nat(signerKey)
+			}
+			if b.f.SignedBy != "" {
+				b.f.SignedNat = b.f.SignedWith == w.nat(signerKey)
+				b.f.SignedFits = AlgFits(b.f.SignedWith, signerKey.Type)
 			}
 		case "hmac":
 			vk := keys[Victim]
@@ -376,17 +401,17 @@ func Build(w World, v Variant) Built {
 		}
 		switch s.SigForm {
 		case "empty":
-			b.sig, b.f.ValidFor = nil, ""
+			b.sig, b.f.ValidFor, b.f.SignedBy = nil, "", ""
 		case "junk":
-			b.sig, b.f.ValidFor = junkBytes(input, sigSize(keys[claimRole])), ""
+			b.sig, b.f.ValidFor, b.f.SignedBy = junkBytes(input, sigSize(keys[claimRole])), "", ""
 		case "trunc":
 			if len(b.sig) > 0 {
-				b.sig, b.f.ValidFor = b.sig[:len(b.sig)-1], ""
+				b.sig, b.f.ValidFor, b.f.SignedBy = b.sig[:len(b.sig)-1], "", ""
 			}
 		case "zero":
-			b.sig, b.f.ValidFor = make([]byte, sigSize(keys[claimRole])), ""
+			b.sig, b.f.ValidFor, b.f.SignedBy = make([]byte, sigSize(keys[claimRole])), "", ""
 		case "long":
-			b.sig, b.f.ValidFor = append(append([]byte(nil), b.sig...), 0), ""
+			b.sig, b.f.ValidFor, b.f.SignedBy = append(append([]byte(nil), b.sig...), 0), "", ""
 		}
 		// unprotected header
 		if ser != "compact" {
@@ -435,16 +460,22 @@ func Build(w World, v Variant) Built {
 				nb, kind := mutate(sigs[i].hdrJSON, sigs[i].hdr, *m)
 				if kind != "" {
 					sigs[i].hdrJSON = nb
-					sigs[i].f.ValidFor, sigs[i].f.Altered = "", kind
+					sigs[i].f.ValidFor, sigs[i].f.SignedBy, sigs[i].f.Altered = "", "", kind
 				}
 			}
 		case "payload":
 			nb, kind := mutate(payload, nil, *m)
+			if w.Detached {
+				kind = "" // the payload is not part of a detached token: nothing to alter here
+			}
 			if kind != "" {
 				payload = nb
 				payB64 = B64(payload)
+				if w.Detached {
+					payB64 = string(payload)
+				}
 				for j := range sigs {
-					sigs[j].f.ValidFor, sigs[j].f.Altered = "", kind
+					sigs[j].f.ValidFor, sigs[j].f.SignedBy, sigs[j].f.Altered = "", "", kind
 				}
 			}
 		case "sig":
@@ -455,7 +486,7 @@ func Build(w World, v Variant) Built {
 				nb[int(m.Pos)%len(nb)] ^= 1 << (m.Bit % 8)
 				sigs[i].sig = nb
 			}
-			sigs[i].f.ValidFor, sigs[i].f.Altered = "", "bytes"
+			sigs[i].f.ValidFor, sigs[i].f.SignedBy, sigs[i].f.Altered = "", "", "bytes"
 		}
 	}
 	for _, b := range sigs {
@@ -473,9 +504,15 @@ func Build(w World, v Variant) Built {
 			}
 			h = append(h, w.Header...)
 			tok = []byte(B64(h.JSON()) + "." + payB64)
+			if w.Detached {
+				tok = []byte(B64(h.JSON()) + ".")
+			}
 			F.Malformed = "two-segments"
 		} else {
 			parts := []string{B64(sigs[0].hdrJSON), payB64, B64(sigs[0].sig)}
+			if w.Detached {
+				parts[1] = ""
+			}
 			for _, e := range v.Enc {
 				if e.Seg < 0 || e.Seg > 2 {
 					continue
@@ -486,6 +523,12 @@ func Build(w World, v Variant) Built {
 				}
 			}
 			tok = []byte(strings.Join(parts, "."))
+			if w.Detached {
+				// further signature entries have no place in a detached compact JWS; append them the only way text allows
+				for _, extra := range sigs[1:] {
+					tok = append(tok, []byte(".."+B64(extra.sig))...)
+				}
+			}
 			for _, e := range v.Enc {
 				switch e.Op {
 				case "extra-seg":
@@ -686,9 +729,15 @@ func Truth(w World, f Facts) Verdict {
 		return Verdict{MustReject: true, Reason: "malformed-" + f.Malformed}
 	}
 	if len(f.Sigs) != 1 {
-		return Verdict{MustReject: true, Reason: fmt.Sprintf("sigcount-%d", len(f.Sigs))}
+		if len(f.Sigs) == 0 {
+			return Verdict{MustReject: true, Reason: "sigcount-0"}
+		}
+		return Verdict{MustReject: true, Reason: "sigcount-multiple"}
 	}
 	s := f.Sigs[0]
+	if w.AlgFromKey {
+		return truthAlgFromKey(w, f, s)
+	}
 	switch s.AlgClass {
 	case "none", "hmac", "missing", "unknown":
 		return Verdict{MustReject: true, Reason: "alg-" + s.AlgClass}
@@ -699,6 +748,11 @@ func Truth(w World, f Facts) Verdict {
 	embedded := f.Ref == "jwk" || w.KeyRef == "jwk"
 	if w.KeyRef == "kid-xor-jwk" && s.JWK != "" {
 		embedded = true
+		// the protocol takes the key from exactly one place (RFC004 §3.1: `kid` or `jwk`, not both): a token naming one
+		// party by kid while carrying another key would be verified by a key the kid does not designate
+		if s.Kid == Victim || s.Kid == Attacker || s.Kid == "unknown" {
+			return Verdict{MustReject: true, Reason: "kid-and-jwk"}
+		}
 	}
 	if embedded && strings.HasSuffix(s.JWK, "-priv") {
 		return Verdict{MustReject: true, Reason: "private-jwk"}
@@ -733,6 +787,33 @@ func Truth(w World, f Facts) Verdict {
 	}
 	if w.IdentityBound && s.ValidFor != Victim {
 		return Verdict{MustReject: true, Reason: "other-party"}
+	}
+	return Verdict{MustAccept: f.IsBase, Reason: "ok"}
+}
+
+// truthAlgFromKey is Truth for consumers that take both key and algorithm from outside the token (LD proofs: the key
+// named by the signed verificationMethod, the algorithm derived from that key). What the header says about alg / kid / jwk is
+// irrelevant to them; what counts is whose signature is really there and how it was computed.
+func truthAlgFromKey(w World, f Facts, s SigFacts) Verdict {
+	designated := []string{Victim}
+	if w.KeyRef != "fixed" {
+		designated = kidDesignates(s.Kid)
+	}
+	if s.SignedBy == "" {
+		r := "bad-signature"
+		if s.Altered != "" {
+			r = "altered-" + s.Altered
+		}
+		return Verdict{MustReject: true, Reason: r}
+	}
+	if !contains(designated, s.SignedBy) {
+		return Verdict{MustReject: true, Reason: "wrong-key"}
+	}
+	if !s.SignedFits {
+		return Verdict{MustReject: true, Reason: "alg-key-mismatch"}
+	}
+	if !s.SignedNat {
+		return Verdict{Reason: "ok-other-alg-of-family"}
 	}
 	return Verdict{MustAccept: f.IsBase, Reason: "ok"}
 }
@@ -803,6 +884,17 @@ func Judge(consumer string, w World, v Variant, b Built, o Observation) (fs []Fi
 	}
 	if len(b.F.Reencoded) > 0 {
 		classes = append(classes, "reencoded")
+		if !vd.MustReject && len(b.F.Reencoded) == 1 {
+			// observation only: which single re-encodings of an otherwise acceptable token does the consumer tolerate
+			op := b.F.Reencoded[0]
+			if i := strings.IndexByte(op, '@'); i > 0 {
+				op = op[:i]
+			}
+			classes = append(classes, "observe:reencode:"+op+":"+outcome)
+		}
+	}
+	if !vd.MustReject && !vd.MustAccept && b.F.Ser != "compact" && len(b.F.Sigs) == 1 {
+		classes = append(classes, "observe:json-serialisation-one-valid-signature:"+outcome)
 	}
 	if b.F.Parses {
 		classes = append(classes, "parses-as-jose")
